@@ -32,7 +32,8 @@ def register(db):
     ))
 
     # ---- next execution time
-    db.define("time_base(P)", "P.timestamp")
+    # "its time base": the previously scheduled time when there is one, else the creation timestamp
+    db.define("time_base(P)", "P.delay.next_execution_time if P.delay.next_execution_time is not None else P.timestamp")
     db.define("until_ahead(P, now)", "P.delay.delay_until is not None and P.delay.delay_until > now")
     db.define("periodic(P, now)", "not until_ahead(P, now) and P.delay.defer_by is not None")
     db.contract(
